@@ -195,7 +195,7 @@ def _upper(value: TemplateValue) -> TemplateValue:
     return value.upper()
 
 
-def default_format(template: KeyTemplate, **values) -> KeyOrTemplate:
+def default_format(template: KeyTemplate, /, **values) -> KeyOrTemplate:
     _template_context, rewrite = key_context.get()
     values["@"] = _template_context
     if rewrite:
